@@ -130,7 +130,11 @@ def shards(tier, seed):
             items.append({"what": "program", "n": 700, "seed": seed * 1000 + 50 + i})
     for i in range(2 if tier == "quick" else 8):
         items.append({"what": "machine", "n": 60 if tier == "quick" else 800, "seed": seed * 1000 + 900 + i})
-    return items
+    return _with_partial(items)
+
+
+def _with_partial(items):
+    return items + [{"what": "partial"}]
 
 
 def run_shard(item, stats):
@@ -142,6 +146,8 @@ def run_shard(item, stats):
     if w == "history":
         core.hyp_search(cachehist.history_case(max_ops=item["ops"]).map(lambda c: dict(c, kind="history")),
                         check, stats, item["n"], item["seed"], km)
+    elif w == "partial":
+        core.run_cases((dict(c, kind="history") for c in cachehist.partial_fill_cases()), check, stats, km)
     elif w == "tiny":
         geos = [cachehist.TINY_GEOMETRIES[g] for g in item.get("geos", range(8))]
         core.run_cases((dict(c, kind="history") for c in cachehist.tiny_cases(item["len"], item["part"], item["parts"], True, geos)),
